@@ -3,13 +3,13 @@ package main
 // Calls: builtins, externals, inlining, modular contract application, effect analysis.
 
 import (
-	"sync"
-	"go/token"
 	"fmt"
+	"go/token"
 	"go/types"
 	"regexp"
 	"sort"
 	"strings"
+	"sync"
 
 	"golang.org/x/tools/go/ssa"
 )
@@ -1023,7 +1023,6 @@ func (x *fnExec) havocKeys(st *State, exact map[string]bool, prefixes []string) 
 	st.epoch = st.epoch.withOverride(exact, prefixes, tag)
 }
 
-
 // relocks reports whether fn contains an Unlock followed (in block order) by a Lock: a window for other goroutines.
 func (p *Program) relocks(fn *ssa.Function) bool {
 	unlocked := false
@@ -1223,7 +1222,6 @@ func (p *Program) modifiesKeys(c *Contract, f *ssa.Function, args []ssa.Value) (
 	return out, true
 }
 
-
 // objInvFor returns the object-invariant declaration that covers precondition label of method fn, if any.
 func (p *Program) objInvFor(fn *ssa.Function, label string) *ObjInv {
 	if fn.Signature.Recv() == nil {
@@ -1274,7 +1272,6 @@ func (x *fnExec) receiverNonNil(st *State, args []Val) *Term {
 	}
 	return Not(Eq(args[0].Ref, BVU(0, 64)))
 }
-
 
 // usableAtCalls: the interface of the contract (pre- and postconditions) is bound to the current code, so callers can
 // still be checked against it even when clauses about the function's interior (loop invariants, at-assertions) have lost
